@@ -162,6 +162,11 @@ def tone_events(chk):
             ev['raised'] = not (ok1 and ok2)
             ev['dev'] = obs.q(zoo.rel_dev(a, b)) if ok1 and ok2 else 0
             batch.add(ev, {'cls': name, 'N': N, 'nfft': nfft, 'seed': chk.seed})
+    # objects alive at the same time keep their own values and their own axis (zoo.coexistence)
+    for cplx in (False, True):
+        for r in zoo.coexistence(zoo.CLASSES, rng, cplx=cplx):
+            batch.add({'ev': 'coexist', 'cls': r['cls'], 'dt': 'complex' if cplx else 'real', 'N': 32, 'nfft': 32, 'raised': r['raised'],
+                       'psd_dev': obs.q(r['psd_dev']), 'axis_dev': obs.q(r['axis_dev'])}, {'cls': r['cls'], 'cplx': cplx, 'seed': chk.seed})
     obs.validate(chk, batch, 'obs-tones', lambda ev, cl: 'C02:%s:%s:%s:%s:%s' % (ev['ev'], ev['cls'], ev.get('dt', 'real'), 'odd' if ev.get('nfft_asked', ev['nfft']) % 2 else 'even', cl),
                  lambda ev, cl: '%s (NFFT=%d, N=%d): clause "%s" fails: %s' % (ev['cls'], ev.get('nfft_asked', ev['nfft']), ev['N'], cl, ev))
     chk.sample('obs-event', batch.events[0], 1)
